@@ -645,10 +645,126 @@ class _SuppressForm(ast.NodeTransformer):
         return node
 
 
+def private_fields_of(tree):
+    """class -> its private fields in the order of their first store through the receiver parameter"""
+    out = {}
+    for c in tree.body:
+        if isinstance(c, ast.ClassDef):
+            names = []
+            for f in c.body:
+                if isinstance(f, ast.FunctionDef) and f.args.args:
+                    selfn = f.args.args[0].arg
+                    for n in ast.walk(f):
+                        if isinstance(n, (ast.Assign, ast.AugAssign, ast.AnnAssign)):
+                            for tg in (n.targets if isinstance(n, ast.Assign) else [n.target]):
+                                for a in ast.walk(tg):
+                                    if isinstance(a, ast.Attribute) and isinstance(a.value, ast.Name) and a.value.id == selfn \
+                                            and a.attr.startswith("_") and not a.attr.endswith("__") and a.attr not in names:
+                                        names.append(a.attr)
+            if names:
+                out[c.name] = names
+    return out
+
+
+def private_methods_of(tree):
+    """class -> {mangled-private method name: (number of parameters, names of the methods of the class that call it)}"""
+    out = {}
+    for c in tree.body:
+        if not isinstance(c, ast.ClassDef):
+            continue
+        defs = {f.name: f for f in c.body if isinstance(f, ast.FunctionDef)}
+        priv = {n: f for n, f in defs.items() if n.startswith("__") and not n.endswith("__")}
+        if not priv:
+            continue
+        info = {}
+        for n, f in priv.items():
+            callers = sorted(g.name for g in defs.values() if g is not f and any(
+                isinstance(x, ast.Attribute) and x.attr == n for x in ast.walk(g)))
+            a = f.args
+            info[n] = (len(a.posonlyargs + a.args), callers)
+        out[c.name] = info
+    return out
+
+
+def private_method_renames(trees):
+    """a name-mangled private method that was merely renamed gets its old name back (the rules anchor on it and stub it by
+    name): the class lacks a private method of the baseline and has exactly one new private method with the same number
+    of parameters that is called from the same methods"""
+    from .known_names import PRIVATE_METHODS
+    now = {}
+    for t in trees:
+        now.update(private_methods_of(t))
+    out = {}
+    for cls, base in PRIVATE_METHODS.items():
+        cur = now.get(cls, {})
+        missing = [n for n in base if n not in cur]
+        fresh = [n for n in cur if n not in base]
+        for old in missing:
+            cands = [n for n in fresh if cur[n][0] == base[old][0] and cur[n][1] == base[old][1]]
+            if len(cands) == 1 and sum(1 for o in missing if base[o] == base[old]) == 1:
+                out.setdefault(cls, {})[cands[0]] = old
+    return out
+
+
+def private_field_renames(trees):
+    """a private field that was merely renamed gets its old name back (the stand-in worlds of the rules spell it): a class
+    of the baseline with the same number of private fields, in the same order of first store, some under new names.
+    Returns (per-class map for name-mangled fields, global map for single-underscore fields)."""
+    from .known_names import FIELDS
+    now = {}
+    for t in trees:
+        now.update(private_fields_of(t))
+    mangled, plain = {}, {}
+    every_now = {n for ns in now.values() for n in ns}
+    for cls, base in FIELDS.items():
+        cur = now.get(cls)
+        if not cur or len(cur) != len(base) or cur == base:
+            continue
+        if set(cur) & set(base) != {a for a, b in zip(cur, base) if a == b}:
+            continue                       # a kept name moved: not a plain renaming
+        for a, b in zip(cur, base):
+            if a == b:
+                continue
+            if a.startswith("__"):
+                mangled.setdefault(cls, {})[a] = b
+            elif sum(1 for ns in now.values() if a in ns) == 1 and b not in every_now:
+                plain[a] = b
+    for cls, m in private_method_renames(trees).items():
+        mangled.setdefault(cls, {}).update(m)
+    return mangled, plain
+
+
+class _FieldRename(ast.NodeTransformer):
+    def __init__(self, mangled, plain):
+        self.mangled, self.plain, self.cls = mangled, plain, None
+
+    def visit_ClassDef(self, node):
+        saved, self.cls = self.cls, node.name
+        self.generic_visit(node)
+        self.cls = saved
+        return node
+
+    def visit_FunctionDef(self, node):
+        m = self.mangled.get(self.cls, {})
+        if node.name in m:
+            node.name = m[node.name]
+        self.generic_visit(node)
+        return node
+
+    def visit_Attribute(self, node):
+        self.generic_visit(node)
+        m = self.mangled.get(self.cls, {})
+        if node.attr in m:
+            node.attr = m[node.attr]
+        elif node.attr in self.plain:
+            node.attr = self.plain[node.attr]
+        return node
+
+
 NORMALISER_NOTES = []
 
 
-def desugar_match(tree):
+def desugar_match(tree, renames=None):
     """normal forms applied once, right after parsing, so that every engine sees spellings it knows: qualified names for
     `from numpy / math import ..`, higher-order spellings made first-order, method aliases read through, simple `match`
     statements -> if chains, type(x) -> x.__class__, written-out asserts.  Each pass works on its own copy: a pass that
@@ -656,7 +772,8 @@ def desugar_match(tree):
     know it) -- a failing normaliser must never take the analysis down, nor change a verdict"""
     import copy as _copy
     from verifkit import funcnorm
-    passes = [("import names", lambda t: _ImportCanon(t).visit(t)),
+    passes = ([("renamed private fields", lambda t: _FieldRename(*renames).visit(t))] if renames and (renames[0] or renames[1]) else []) + [
+              ("import names", lambda t: _ImportCanon(t).visit(t)),
               ("higher-order spellings", funcnorm.normalise),
               ("method aliases", lambda t: _AliasInline(t).visit(t)),
               ("match statements", lambda t: _MatchDesugar().visit(t)),
